@@ -330,6 +330,15 @@ def body(chk, db, cfgname):
                     return k
                 cnt = norm(c["count"])
                 good = any(same_product(cnt, norm(e)) for e in exts)
+                if not good and len(n["args"]) > 2:
+                    # the same comparison on the keys as written (a local that cannot be inlined at one of the two places)
+                    subst1 = local_resizes(f, ctx, j, X, raw_inline=False)
+                    cnt1 = ctx.key(n["args"][2], inline=False)
+                    def norm1(k, _s=subst1):
+                        for _ in range(3):
+                            k = key_subst(k, _s)
+                        return k
+                    good = any(same_product(norm1(cnt1), norm1(e)) for e in exts)
                 if good:
                     r6.ok(site, f.loc(j), "count equals the extent of the container (after the dominating resize in this arm, if any)", cfgname)
                 else:
@@ -448,7 +457,7 @@ def extent_keys(X, dataname):
     return [("mcall", "std::vector::size", X)]
 
 
-def local_resizes(f, ctx, node, X):
+def local_resizes(f, ctx, node, X, raw_inline=True):
     """substitution for rows()/cols()/size() of containers resized earlier in the same arm (block) as `node`."""
     # statements preceding `node` in its enclosing compound statement
     stmt = node
@@ -468,7 +477,7 @@ def local_resizes(f, ctx, node, X):
             for j, n in f.walk(s):
                 if n["k"] == "call" and n["ck"] == "method" and strip_targs(n.get("cname") or "").split("::")[-1] == "resize" and n.get("obj") is not None:
                     ok_ = ctx.key(n["obj"])
-                    args = [ctx.key(a) for a in n["args"]]
+                    args = [ctx.key(a, inline=raw_inline) for a in n["args"]]
                     cn = strip_targs(n.get("cname") or "")
                     if cn.startswith("Eigen::"):
                         if len(args) == 2:
